@@ -1055,7 +1055,7 @@ class TrainableDist(DelayDistribution):
                             None,
                             1,
                         ),
-                    )(ts_recv_interp, ts_recv_mask, _fp_batch).reshape(_f_shape)
+                    )(ts_recv_interp, ts_recv_mask, _fp_batch).T.reshape(_f_shape)  # vmap output is (features, window)
                 else:
                     res = jnp.interp(ts_recv_interp, ts_recv_mask, _fp)
                 return res.astype(
